@@ -571,6 +571,10 @@ func (w *world) exec(line string) {
 		} else {
 			c.MatchStandaloneJSON(t, input, jm...)
 		}
+		if bs, ok := input.([]byte); ok && !bytes.Equal(bs, doc) {
+			// the bytes passed by the caller must never be modified
+			t.events = append(t.events, "X:"+hx("caller's []byte was modified by the call"))
+		}
 		fmt.Fprintf(w.ann, "%s %s %s\n", tok[0], tok[1], tok[2])
 		w.result(tok[0], t, before, "")
 	case "yaml":
@@ -595,6 +599,9 @@ func (w *world) exec(line string) {
 		}
 		before := w.stamp()
 		c.MatchYAML(t, input, ym...)
+		if bs, ok := input.([]byte); ok && !bytes.Equal(bs, doc) {
+			t.events = append(t.events, "X:"+hx("caller's []byte was modified by the call"))
+		}
 		fmt.Fprintf(w.ann, "yaml %s %s\n", tok[1], tok[2])
 		w.result("yaml", t, before, "")
 	case "sasnap":
